@@ -283,6 +283,38 @@ def offset_table_protocol(chk, io_mod, rid):
     chk.ob(rid, "the scan runs iff the table is not valid; None is returned only for a valid table", ok, ivc[0] if ivc else pf, "", key=f"{io_mod.relpath}:prepare_file_offset_table:rebuild-guard")
 
 
+def line_count_rule(chk, rid, ldr):
+    """DocumentSetPreparator.create_file_offset_table: a line count that differs from the declared document count (0 lines included) removes the freshly written offset table and
+    raises — shared with C03: a table left behind makes the retry skip the count (the table looks up to date) and the slices are then cut from the declared count."""
+    cf = method(ldr, ldr.cls("DocumentSetPreparator"), "create_file_offset_table")
+    params(cf, 3)
+    gc = cfg_of(cf)
+    cdefs = local_defs(cf)
+    lr = [k for k, v in cdefs.items() if isinstance(v, ast.Call) and last_attr(v.func) == "prepare_file_offset_table"]
+    ifs = [n for n in walk_body(cf) if isinstance(n, ast.If)]
+    ifs = [n for n in ifs if lr and any(isinstance(x, ast.Name) and x.id == lr[0] for x in ast.walk(n.test))] or ifs
+    ok = False
+    detail = ""
+    if lr and ifs:
+        # role: v = the local holding the (optional) number of lines read; the statement is evaluated on representative (lines read, expected) pairs: None (no rebuild) is never a
+        # mismatch, a count — 0 included — is one iff it differs from the expected number; the path taken for a mismatch (whichever arm / nesting) removes the table, then raises
+        v = lr[0]
+        en = params_of(cf)[2]
+        detail = f"`{u(ifs[0].test)}`"
+        ok, d_, res = mismatch_outcomes(ifs[0], v, en)
+        if res:
+            hit = res[(7, 6)]
+            truthy = hit.kind == "raise" and res[(7, 7)].kind != "raise" and res[(0, 6)].kind != "raise"
+            ok = ok and hit.kind == "raise" and raises_on_all_paths(gc, [gc.node_of(hit.node)]) and any(isinstance(x, ast.Call) and last_attr(x.func) == "remove_file_offset_table" for s in before_in_block(hit.node) for x in ast.walk(s))
+            if truthy:
+                detail += " tests the optional line count by truthiness: a file with 0 lines skips the comparison"
+            elif d_:
+                detail += " — " + d_
+        else:
+            detail += " " + d_
+    chk.ob(rid, "line-count mismatch (including 0 lines) removes the table and raises", ok, ifs[0] if ifs else cf, detail, key=f"{_L}:DocumentSetPreparator.create_file_offset_table:line-count-check")
+
+
 def size_verification(f, g, ifs, path, exp):
     """(if node or None, ok, detail) — among `ifs`, the (outermost) one that compares the declared-size parameter `exp` with another value (role: the measured size). ok iff that value is
     os.path.getsize(<path parameter>) (directly or through single-assignment locals) and the statement, evaluated on representative (declared, measured) pairs, ends in a raise exactly
@@ -575,33 +607,7 @@ def run(chk):
     ilr = [n for n in walk_body(ila) if isinstance(n, ast.Return)]
     ok = len(ilr) == 1 and ilr[0].value is not None and u(returned(ilr[0])) == f"os.path.isfile({params_of(ila)[1]})"
     chk.ob("O14.4", "is_locally_available: a regular file exists", ok, ila, "")
-    cf = method(ldr, P, "create_file_offset_table")
-    params(cf, 3)
-    gc = cfg_of(cf)
-    cdefs = local_defs(cf)
-    lr = [k for k, v in cdefs.items() if isinstance(v, ast.Call) and last_attr(v.func) == "prepare_file_offset_table"]
-    ifs = [n for n in walk_body(cf) if isinstance(n, ast.If)]
-    ifs = [n for n in ifs if lr and any(isinstance(x, ast.Name) and x.id == lr[0] for x in ast.walk(n.test))] or ifs
-    ok = False
-    detail = ""
-    if lr and ifs:
-        # role: v = the local holding the (optional) number of lines read; the statement is evaluated on representative (lines read, expected) pairs: None (no rebuild) is never a
-        # mismatch, a count — 0 included — is one iff it differs from the expected number; the path taken for a mismatch (whichever arm / nesting) removes the table, then raises
-        v = lr[0]
-        en = params_of(cf)[2]
-        detail = f"`{u(ifs[0].test)}`"
-        ok, d_, res = mismatch_outcomes(ifs[0], v, en)
-        if res:
-            hit = res[(7, 6)]
-            truthy = hit.kind == "raise" and res[(7, 7)].kind != "raise" and res[(0, 6)].kind != "raise"
-            ok = ok and hit.kind == "raise" and raises_on_all_paths(gc, [gc.node_of(hit.node)]) and any(isinstance(x, ast.Call) and last_attr(x.func) == "remove_file_offset_table" for s in before_in_block(hit.node) for x in ast.walk(s))
-            if truthy:
-                detail += " tests the optional line count by truthiness: a file with 0 lines skips the comparison"
-            elif d_:
-                detail += " — " + d_
-        else:
-            detail += " " + d_
-    chk.ob("O14.4", "line-count mismatch (including 0 lines) removes the table and raises", ok, ifs[0] if ifs else cf, detail, key=f"{_L}:DocumentSetPreparator.create_file_offset_table:line-count-check")
+    line_count_rule(chk, "O14.4", ldr)
     pb = method(ldr, P, "prepare_bundled_document_set")
     gb = cfg_of(pb)
     rt = [n for n in walk_body(pb) if isinstance(n, ast.Return) and source.is_const(n.value, True)]
